@@ -264,9 +264,9 @@ func (c *evConn) written() []byte {
 	defer c.mu.Unlock()
 	return append([]byte(nil), c.wrote.Bytes()...)
 }
-func (c *evConn) LocalAddr() net.Addr                { return &net.TCPAddr{IP: net.IPv4(127, 0, 0, 1), Port: 443} }
-func (c *evConn) RemoteAddr() net.Addr               { return &net.TCPAddr{IP: net.IPv4(127, 0, 0, 1), Port: 50000} }
-func (c *evConn) SetDeadline(t time.Time) error      { return c.SetReadDeadline(t) }
+func (c *evConn) LocalAddr() net.Addr           { return &net.TCPAddr{IP: net.IPv4(127, 0, 0, 1), Port: 443} }
+func (c *evConn) RemoteAddr() net.Addr          { return &net.TCPAddr{IP: net.IPv4(127, 0, 0, 1), Port: 50000} }
+func (c *evConn) SetDeadline(t time.Time) error { return c.SetReadDeadline(t) }
 func (c *evConn) SetReadDeadline(t time.Time) error {
 	c.mu.Lock()
 	c.deadline = t
